@@ -405,7 +405,14 @@ namespace occa {
       // However, make sure we aren't parsing an identifier:
       //   - true_var
       //   - false_case
-      if (isPrimitive && !lex::inCharset(*pos, charcodes::identifierStart)) {
+      //   - true1
+      const bool isIdentifierPrefix = (
+        lex::inCharset(c, charcodes::identifierStart)
+        && lex::inCharset(*pos, charcodes::identifier)
+      );
+      if (isPrimitive
+          && !lex::inCharset(*pos, charcodes::identifierStart)
+          && !isIdentifierPrefix) {
         return tokenType::primitive;
       }
       if (lex::inCharset(c, charcodes::identifierStart)) {
